@@ -16,7 +16,7 @@ func init() {
 		"non-trivial = differs from base; distinct = (source hash, document)"
 }
 
-var c09Devs = []string{"DEFAULT_ENUM_NULL_REJECTED", "DEFAULT_MAP_EMPTIED", "SIZED_INT_ENUM_REJECTS_ALL"}
+var c09Devs = []string{"INLINE_STRUCT_NO_DEFAULTS", "DEFAULT_ENUM_NULL_REJECTED", "DEFAULT_MAP_EMPTIED", "SIZED_INT_ENUM_REJECTS_ALL"}
 
 // buildRule attributes a known compile failure: message pattern plus a predicate over the case axes.
 type buildRule struct {
